@@ -36,8 +36,9 @@ func (c *Ctx) ruleSitesIMPL() {
 				if l.Kind != "cond" || l.Pos || l.Val == nil {
 					return false
 				}
-				x, ok := l.Val.(*ssa.Lookup)
-				if !ok {
+				// `!found[key]` on a set, or `_, ok := index[key]; !ok` on an index of the loaded interfaces
+				x := lookupOK(l)
+				if x == nil {
 					return false
 				}
 				kd := P.Desc(x.Index)
@@ -347,6 +348,62 @@ func (c *Ctx) ruleImportResolution() {
 
 // ruleMatcherShape: the structural matcher as it is (string model): all fields compared, all methods examined.
 // Its fundamental defect (identity by rendering, receiver-kind filter, pointer depth) is reported by ruleTypeIdent.
+// famInstance: a function body read in one calling context (helpers are read once per call site).
+type famInstance struct {
+	Fn   *ssa.Function
+	Pins pinMap
+}
+
+// familyInstances: fn itself and, for every static call of a non-anchor product helper made from it (transitively,
+// depth <= 3), the helper's body pinned to that call - so that a helper called twice (once per argument list) is
+// read twice, each time with its parameters standing for that call's arguments.
+func (c *Ctx) familyInstances(fn *ssa.Function) []famInstance {
+	P := c.P
+	out := []famInstance{{fn, nil}}
+	var walk func(inst famInstance, depth int)
+	walk = func(inst famInstance, depth int) {
+		if depth > 3 {
+			return
+		}
+		fns := append([]*ssa.Function{inst.Fn}, inst.Fn.AnonFuncs...)
+		for _, f := range fns {
+			allInstrs(f, func(b *ssa.BasicBlock, ins ssa.Instruction) {
+				call, ok := ins.(*ssa.Call)
+				if !ok {
+					return
+				}
+				g := call.Call.StaticCallee()
+				if g == nil || g == fn || !P.IsProductFunc(g) || len(g.Blocks) == 0 || P.isAnchor(g) || inst.Pins[g] != nil {
+					return
+				}
+				np := pinMap{}
+				for k, v := range inst.Pins {
+					np[k] = v
+				}
+				np[g] = call
+				ni := famInstance{g, np}
+				out = append(out, ni)
+				walk(ni, depth+1)
+			})
+		}
+	}
+	walk(out[0], 0)
+	return out
+}
+
+// forFamilyInstrs runs f on every instruction of fn and of the helper instances it calls, each under its pins.
+func (c *Ctx) forFamilyInstrs(fn *ssa.Function, f func(inst famInstance, b *ssa.BasicBlock, ins ssa.Instruction)) {
+	for _, inst := range c.familyInstances(fn) {
+		inst := inst
+		c.P.PinnedAll(inst.Pins, func() {
+			fns := append([]*ssa.Function{inst.Fn}, inst.Fn.AnonFuncs...)
+			for _, g := range fns {
+				allInstrs(g, func(b *ssa.BasicBlock, ins ssa.Instruction) { f(inst, b, ins) })
+			}
+		})
+	}
+}
+
 func (c *Ctx) ruleMatcherShape() {
 	P := c.P
 	if tm := P.LookupFunc("implements", "typesMatch"); tm != nil {
@@ -376,7 +433,7 @@ func (c *Ctx) ruleMatcherShape() {
 	if sm := P.LookupFunc("implements", "signaturesMatch"); sm != nil {
 		var lenIn, lenOut bool
 		nPair := 0
-		allInstrs(sm, func(b *ssa.BasicBlock, ins ssa.Instruction) {
+		c.forFamilyInstrs(sm, func(_ famInstance, b *ssa.BasicBlock, ins ssa.Instruction) {
 			switch x := ins.(type) {
 			case *ssa.BinOp:
 				if x.Op == token.NEQ || x.Op == token.EQL {
@@ -394,7 +451,15 @@ func (c *Ctx) ruleMatcherShape() {
 				if x.Call.StaticCallee() != nil && FuncName(x.Call.StaticCallee()) == "implements.typesMatch" {
 					a0, a1 := P.Desc(x.Call.Args[0]), P.Desc(x.Call.Args[1])
 					same := (strings.Contains(a0, "TypeMethod.Inputs") && strings.Contains(a1, "InterfaceMethod.Inputs")) || (strings.Contains(a0, "TypeMethod.Outputs") && strings.Contains(a1, "InterfaceMethod.Outputs"))
-					if same && strings.HasPrefix(a0, "&elem(") && strings.HasPrefix(a1, "&elem(") {
+					// both lists are indexed by the same variable of a loop over the whole first list (the lengths are
+					// compared before)
+					sameIdx := false
+					if i0, ok0 := x.Call.Args[0].(*ssa.IndexAddr); ok0 {
+						if i1, ok1 := x.Call.Args[1].(*ssa.IndexAddr); ok1 {
+							sameIdx = i0.Index == i1.Index
+						}
+					}
+					if same && strings.HasPrefix(a0, "&elem(") && (strings.HasPrefix(a1, "&elem(") || (sameIdx && strings.HasPrefix(a1, "&elem["))) {
 						nPair++
 					}
 				}
@@ -423,7 +488,16 @@ func (c *Ctx) ruleMatcherShape() {
 				call := litCall(l)
 				return call != nil && !l.Pos && call.Call.StaticCallee() != nil && FuncName(call.Call.StaticCallee()) == "implements.signaturesMatch"
 			}) && hasLit(g, func(l Lit) bool { return lookupOK(l) != nil && l.Pos })
-			if !(absent || mismatch) || (absent && len(g) != 1) || (mismatch && len(g) != 2) {
+			// `if have, ok := m[name]; ok && match(have, want) { continue }; append`: one append under not(ok && match)
+			both := len(g) == 1 && g[0].Kind == "and" && !g[0].Pos && len(g[0].Subs) == 2 &&
+				hasLit(g[0].Subs, func(l Lit) bool { return lookupOK(l) != nil && l.Pos }) &&
+				hasLit(g[0].Subs, func(l Lit) bool {
+					call := litCall(l)
+					return call != nil && l.Pos && call.Call.StaticCallee() != nil && FuncName(call.Call.StaticCallee()) == "implements.signaturesMatch"
+				})
+			if both {
+				nAppend++ // stands for both listing reasons
+			} else if !(absent || mismatch) || (absent && len(g) != 1) || (mismatch && len(g) != 2) {
 				okGuards = false
 			}
 			if !strings.Contains(P.Desc(call.Call.Args[1]), "implements.InterfaceModel.Methods") {
@@ -450,6 +524,17 @@ func (c *Ctx) ruleMatcherShape() {
 			_ = mu
 			if reqP(true) && len(g) == 1 {
 				allWhenPtr = true
+			}
+			// `if requirePointer || !m.ReceiverIsPointer { add }`: both clauses in one condition
+			if len(g) == 1 && g[0].Kind == "or" && g[0].Pos && len(g[0].Subs) == 2 {
+				sub := g[0].Subs
+				isReq := func(l Lit) bool { return l.Kind == "cond" && l.Val == ci.Params[2] && l.Pos }
+				isVal := func(l Lit) bool {
+					return l.Kind == "cond" && l.Val != nil && !l.Pos && strings.HasSuffix(P.Desc(l.Val), "TypeMethod.ReceiverIsPointer)")
+				}
+				if (isReq(sub[0]) && isVal(sub[1])) || (isReq(sub[1]) && isVal(sub[0])) {
+					allWhenPtr, valueOnly = true, true
+				}
 			}
 			if reqP(false) && recvP(false) && len(g) == 2 {
 				valueOnly = true
